@@ -111,6 +111,21 @@ func (h *chunkHeartbeat) Marshal() ([]byte, error) {
 	return h.chunkHeader.marshal()
 }
 
+// marshal implements the chunk interface, through which the association
+// serialises every outgoing packet. Without it the embedded chunkHeader.marshal
+// is used and the Heartbeat Info parameter never reaches the wire.
+func (h *chunkHeartbeat) marshal() ([]byte, error) {
+	if len(h.params) == 0 {
+		// unmarshal accepts a HEARTBEAT with an empty body; keep it encodable.
+		h.chunkHeader.typ = ctHeartbeat
+		h.chunkHeader.raw = nil
+
+		return h.chunkHeader.marshal()
+	}
+
+	return h.Marshal()
+}
+
 func (h *chunkHeartbeat) check() (abort bool, err error) {
 	return false, nil
 }
